@@ -107,6 +107,10 @@ struct Ctx {
     stalls_fired: u32,
     local_hits: Vec<u32>,
     op_hist: Vec<u32>, // site histogram of the current op (only when step_limit>0)
+    /// freeze injection: epoch last seen and number of further sites to pass before suspending,
+    /// so that threads are suspended at arbitrary points inside their operations
+    freeze_epoch: u32,
+    freeze_countdown: u32,
 }
 
 thread_local! {
@@ -147,6 +151,7 @@ pub fn take_harness_error() -> Option<String> {
 // ---- freeze (C18) ----
 /// 0 = off; otherwise tid+1 of the only thread allowed to run
 static FREEZE: AtomicU32 = AtomicU32::new(0);
+static FREEZE_EPOCH: AtomicU32 = AtomicU32::new(0);
 static FROZEN: AtomicU32 = AtomicU32::new(0);
 pub static ACTIVE: AtomicU32 = AtomicU32::new(0);
 pub const MAX_THREADS: usize = 32;
@@ -185,6 +190,8 @@ pub fn thread_begin(tid: u32, role: u32, seed: u64, policy: Policy, plan: &[Stal
             stalls_fired: 0,
             local_hits: vec![0; NSITES],
             op_hist: Vec::new(),
+            freeze_epoch: 0,
+            freeze_countdown: 0,
         })
     });
     ACTIVE.fetch_add(1, SeqCst);
@@ -285,6 +292,7 @@ fn freeze_here(tid: u32, s: u32) {
 
 /// ask every other registered thread to suspend at its next hook site
 pub fn freeze_others(my_tid: u32) {
+    FREEZE_EPOCH.fetch_add(1, SeqCst);
     FREEZE.store(my_tid + 1, SeqCst);
 }
 pub fn frozen_count() -> u32 {
@@ -410,7 +418,29 @@ pub fn callback(s: u32) {
     if tid != u32::MAX {
         let f = FREEZE.load(Relaxed);
         if f != 0 && f != tid + 1 {
-            freeze_here(tid, s);
+            // pass a random number of further sites first (0..12), then suspend right here
+            let ep = FREEZE_EPOCH.load(Relaxed);
+            let go = CTX
+                .try_with(|c| {
+                    if let Ok(mut b) = c.try_borrow_mut() {
+                        if let Some(ctx) = b.as_mut() {
+                            if ctx.freeze_epoch != ep {
+                                ctx.freeze_epoch = ep;
+                                ctx.freeze_countdown = ctx.rng.below(12) as u32;
+                            }
+                            if ctx.freeze_countdown == 0 {
+                                return true;
+                            }
+                            ctx.freeze_countdown -= 1;
+                            return false;
+                        }
+                    }
+                    true
+                })
+                .unwrap_or(true);
+            if go {
+                freeze_here(tid, s);
+            }
         }
     }
 }
